@@ -36,6 +36,10 @@ theorem flowLines_cons_nil (b : Box) (rest : List Box) :
     flowLines (b :: rest) = flowLines [b] ++ flowLines rest := by
   cases b; simp [flowLines]
 
+theorem inlineOf_cons_nil (b : Box) (rest : List Box) :
+    inlineOf (b :: rest) = inlineOf [b] ++ inlineOf rest := by
+  cases b; simp [inlineOf]
+
 theorem flowAll_cons_nil (b : Box) (rest : List Box) :
     flowAll (b :: rest) = flowAll [b] ++ flowAll rest := by
   cases b; simp [flowAll]
@@ -48,46 +52,49 @@ theorem Acc.add_cons (acc : Acc) (b : Box) (rest : List Box) :
 
 /-- a real context, given that dispatching its children computes the spec's traversals -/
 theorem ctx_none_of (id : Nat) (pr : BProps) (children : List Box)
-    (h : ∀ acc, dispatchChildren children acc = acc.add children) :
+    (h : ∀ acc, dispatchChildren children acc = (acc.add children, inlineOf children)) :
     ctxOfBox (.mk id pr children) none = (specReal (.mk id pr children), []) := by
   simp [ctxOfBox, h, Acc.add, finishCtx, drawCtx, specReal, layers, List.append_assoc]
 
 /-- a fake context (positioned z-index:auto box, float, inline-block) -/
 theorem ctx_some_of (id : Nat) (pr : BProps) (children : List Box) (cc : List CCtx)
-    (h : ∀ acc, dispatchChildren children acc = acc.add children) :
+    (h : ∀ acc, dispatchChildren children acc = (acc.add children, inlineOf children)) :
     ctxOfBox (.mk id pr children) (some cc)
       = (specPseudo (.mk id pr children), cc ++ participants children) := by
   simp [ctxOfBox, h, Acc.add, finishCtx, drawCtx, specPseudo, layers, sortZ, List.append_assoc]
 
 mutual
-  theorem dispatchChildren_eq : ∀ (cs : List Box) (acc : Acc), dispatchChildren cs acc = acc.add cs
-    | [], acc => by simp [dispatchChildren, Acc.add_nil]
+  theorem dispatchChildren_eq : ∀ (cs : List Box) (acc : Acc), dispatchChildren cs acc = (acc.add cs, inlineOf cs)
+    | [], acc => by simp [dispatchChildren, Acc.add_nil, inlineOf]
     | ch :: rest, acc => by
-      rw [dispatchChildren, dispatch_eq ch acc, dispatchChildren_eq rest, ← Acc.add_cons]
+      rw [dispatchChildren, dispatch_eq ch acc]
+      simp only
+      rw [dispatchChildren_eq rest, ← Acc.add_cons, ← inlineOf_cons_nil]
 
-  theorem dispatch_eq : ∀ (b : Box) (acc : Acc), dispatch b acc = acc.add [b]
+  theorem dispatch_eq : ∀ (b : Box) (acc : Acc), dispatch b acc = (acc.add [b], inlineOf [b])
     | .mk id pr children, acc => by
       have hch := dispatchChildren_eq children
       have hn := ctx_none_of id pr children hch
       have hs := fun cc => ctx_some_of id pr children cc hch
       by_cases hm : pr.makesContext = true
-      · simp [dispatch, hm, hn, Acc.add, participants, flowBlocks, floatsOf, flowLines, flowAll, BProps.inFlow,
+      · simp [dispatch, hm, hn, Acc.add, participants, flowBlocks, floatsOf, flowLines, flowAll, inlineOf, BProps.inFlow,
           BProps.specZ, BProps.zIndex]
       · have hm' : pr.makesContext = false := by simpa using hm
         by_cases hp : pr.positioned = true
         · simp [dispatch, hm', hp, hs, insertAt_append, Acc.add, participants, flowBlocks, floatsOf, flowLines, flowAll,
-            BProps.inFlow]
+            inlineOf, BProps.inFlow]
         · have hp' : pr.positioned = false := by simpa using hp
           by_cases hf : pr.floated = true
-          · simp [dispatch, hm', hp', hf, hs, Acc.add, participants, flowBlocks, floatsOf, flowLines, flowAll, BProps.inFlow]
+          · simp [dispatch, hm', hp', hf, hs, Acc.add, participants, flowBlocks, floatsOf, flowLines, flowAll, inlineOf,
+              BProps.inFlow]
           · have hf' : pr.floated = false := by simpa using hf
             by_cases hi : pr.inlineBlock = true
             · simp [dispatch, hm', hp', hf', hi, hs, Acc.add, participants, flowBlocks, floatsOf, flowLines, flowAll,
-                BProps.inFlow]
+                inlineOf, BProps.inFlow]
             · have hi' : pr.inlineBlock = false := by simpa using hi
-              cases hb : pr.blockLevel <;> cases hl : pr.hasLines <;>
-                simp [dispatch, hm', hp', hf', hi', hb, hl, hch, insertAt_append, Acc.add, participants, flowBlocks,
-                  floatsOf, flowLines, flowAll, BProps.inFlow, List.append_assoc]
+              cases hb : pr.blockLevel <;> cases hl : pr.hasLines <;> cases ht : pr.text <;>
+                simp [dispatch, hm', hp', hf', hi', hb, hl, ht, hch, insertAt_append, Acc.add, participants, flowBlocks,
+                  floatsOf, flowLines, flowAll, inlineOf, BProps.inFlow, List.append_assoc]
 end
 
 end WR.C16
